@@ -151,14 +151,35 @@ Proof.
   destruct (_ <? _); [done|]. rewrite (Hc d c eq_refl Ec), Z.eqb_refl. done.
 Qed.
 
+(* the same, only at the start heights resolveConflict can ask for *)
+Definition honest_serves_avail_lt (H : Z -> Z -> Z) (hard : Z -> option Z) (v : cview) (env : denv)
+           (raws : list rawresp) (cps : list (Z * list Z))
+           (p : Z) (tc : list Z) (tfilt : Z -> Z) : Prop :=
+  forall j : nat, (j < length tc)%nat -> first_diff hard v cps = SaneDiff (Z.of_nat j) ->
+    let startH := u32 (Z.of_nat j * INTERVAL) in
+    exists tm,
+    honest_in tm p (fst (get_headers v startH raws)) /\
+    (forall i : nat, (i < zn (snd (get_headers v startH raws)))%nat ->
+        good_idx env tfilt tm startH p (Z.of_nat i) /\ env_avail env startH (Z.of_nat i)) /\
+    (forall q mq, In (q, mq) (fst (get_headers v startH raws)) -> m_prev mq = m_prev tm) /\
+    (forall c, zget tc (Z.of_nat j) = Some c ->
+        chain_last H (m_prev tm) (take (zn (INTERVAL + 1)) (m_hashes tm)) = c).
+
+Lemma honest_serves_avail_lt_of H hard v env raws cps p tc tfilt :
+  honest_serves_avail H v env raws p tc tfilt -> honest_serves_avail_lt H hard v env raws cps p tc tfilt.
+Proof.
+  intros Hs j _ _. cbv zeta. destruct (Hs (u32 (Z.of_nat j * INTERVAL))) as (tm & Hh & Hg & Hp & Hc).
+  exists tm. split; [done|]. split; [done|]. split; [done|]. intros c Hcj. by apply (Hc (Z.of_nat j)).
+Qed.
+
 (* resolveConflict makes progress: it returns a checkpoint list, or it has
    banned one of the peers whose list it was given. *)
-Theorem resolve_progress H hard v env raws hint cps p tc tfilt tx tiph bans res :
+Theorem resolve_progress_lt H hard v env raws hint cps p tc tfilt tx tiph bans res :
   In (p, tc) cps -> (forall l, In (p, l) cps -> l = tc) ->
   peer_hard_bad hard tc = false ->
   (forall q l, In (q, l) cps -> (length l <= length tc)%nat) ->
   v_btip v = Some (tx, tiph) -> 0 <= tiph < 1000000 -> zlen tc * INTERVAL <= tiph ->
-  honest_serves_avail H v env raws p tc tfilt ->
+  honest_serves_avail_lt H hard v env raws cps p tc tfilt ->
   store_agrees v tc ->
   (forall l, check_sanity l v <> SaneErr) ->
   resolve_conflict H hard v env raws hint cps = (bans, res) ->
@@ -197,7 +218,7 @@ Proof.
     set (startH := u32 (Z.of_nat j * INTERVAL)).
     assert (EstartH : startH = Z.of_nat j * INTERVAL).
     { unfold startH. apply u32_small. unfold INTERVAL, U32 in *. lia. }
-    destruct (Hhon startH) as (tm & Hh & Hgood & Hprevs & Hcons).
+    destruct (Hhon j Hjtc Es) as (tm & Hh & Hgood & Hprevs & Hcons). fold startH in Hh, Hgood, Hprevs.
     destruct (get_headers v startH raws) as [hs n] eqn:Eg. cbn [fst snd] in Hh, Hgood, Hprevs.
     pose proof (get_headers_len _ _ _ _ _ Eg) as Hlens.
     assert (Hn : INTERVAL + 1 <= n <= MAXCFH).
@@ -230,7 +251,7 @@ Proof.
     assert (Hjsmall : Z.of_nat j < 1000000) by (unfold INTERVAL in *; lia).
     destruct (lookup_lt_is_Some_2 tc j Hjtc) as [cj Hcj].
     assert (Ecj : Cstar = cj).
-    { apply (Hcons (Z.of_nat j)); [done|]. by apply zget_lookup. }
+    { apply Hcons. by apply zget_lookup. }
     assert (Hhashes : forall q m, In (q, m) hs' -> m_hashes m = m_hashes tm).
     { apply (settled_hashes tm p hs hs' n); try done. unfold INTERVAL, MAXCFH in *. lia. }
     (* a list that names another header at index j is thrown out *)
@@ -273,6 +294,22 @@ Proof.
     + intros [= <- <-]. by right.
     + intros [= <- <-]. by right.
   - exfalso. by apply (Hnoerr cps1).
+Qed.
+
+Theorem resolve_progress H hard v env raws hint cps p tc tfilt tx tiph bans res :
+  In (p, tc) cps -> (forall l, In (p, l) cps -> l = tc) ->
+  peer_hard_bad hard tc = false ->
+  (forall q l, In (q, l) cps -> (length l <= length tc)%nat) ->
+  v_btip v = Some (tx, tiph) -> 0 <= tiph < 1000000 -> zlen tc * INTERVAL <= tiph ->
+  honest_serves_avail H v env raws p tc tfilt ->
+  store_agrees v tc ->
+  (forall l, check_sanity l v <> SaneErr) ->
+  resolve_conflict H hard v env raws hint cps = (bans, res) ->
+  res <> None \/ exists q, In q bans /\ In q (List.map fst cps).
+Proof.
+  intros Hp Huniq Hhard Hlen Htip Htipb Hcap Hhon Hstore Hnoerr.
+  apply (resolve_progress_lt H hard v env raws hint cps p tc tfilt tx tiph); try done.
+  by apply honest_serves_avail_lt_of.
 Qed.
 
 Print Assumptions resolve_progress.
